@@ -382,7 +382,7 @@ def operand(kind, op):
 
 OPERAND_KINDS = ["int", "float", "str", "list", "tuple", "set", "dict", "u_self", "u_new", "u_notimpl", "u_noiop", "u_reflected", "u_both_notimpl"]
 TARGET_KINDS = ["name", "attr", "sub", "slice"]
-PLACEMENTS = ["global", "local", "nonlocal", "class", "globaldecl"]
+PLACEMENTS = ["global", "local", "nonlocal", "class", "globaldecl", "class_reads_global", "class_in_function_reads_global", "forvar", "captured"]
 
 
 def aug_cell(op, tk, ok, pl):
@@ -425,6 +425,16 @@ def aug_cell(op, tk, ok, pl):
         )
     elif pl == "class":
         lines = ["class K:"] + ["    " + b for b in body[:3]] + ["    log('r', x, al, x is al)", "log('k', K.x, K.al, K.x is K.al)"]
+    elif pl == "class_reads_global":
+        # the class body augments a name it has not bound: the left operand is the module global
+        lines = ["x = %s" % left, "al = x", "class K:", "    x %s= %s" % (sym, right), "log('r', x, al, x is al, K.x, K.x is al)"]
+    elif pl == "class_in_function_reads_global":
+        # ... also when the class is nested in a function that owns a variable of the same name
+        lines = ["x = %s" % left, "al = x", "def f(x):", "    class K:", "        x %s= %s" % (sym, right), "    return (K.x, x)", "log('r', f('fx'), x, al, x is al)"]
+    elif pl == "forvar":
+        lines = ["al = None", "for x in [%s]:" % left, "    al = x", "    x %s= %s" % (sym, right), "log('r', x, al, x is al)"]
+    elif pl == "captured":
+        lines = ["def f():", "    x = %s" % left, "    al = x", "    def rd():", "        return x", "    x %s= %s" % (sym, right), "    log('r', x, al, x is al, rd() is x)", "f()"]
     elif pl == "globaldecl":
         lines = ["x = %s" % left, "al = x", "def f():", "    global x", "    x %s= %s" % (sym, right), "f()", "log('r', x, al, x is al)"]
     desc = "C13:aug:%s:%s:%s:%s" % (op[1], tk, ok, pl)
